@@ -40,6 +40,9 @@ func Run(o *hx.Opts, w *lineio.Writer, prop int) error {
 		g := &Gen{R: o.Rand(int64(100 + prop))}
 		for i := 0; i < o.N(4000, 150000); i++ {
 			id, in := g.Random(i)
+			if prop == 3 && in.Kind != "create" {
+				continue // C03 speaks about creation requests only
+			}
 			jobs = append(jobs, job{id, in})
 		}
 		for i := 0; i < o.N(350, 7000); i++ {
@@ -63,6 +66,7 @@ func Run(o *hx.Opts, w *lineio.Writer, prop int) error {
 		if err != nil {
 			return fmt.Errorf("rig %d: %w", i, err)
 		}
+		r.WithSpec = prop == 3
 		rigs[i] = r
 		defer r.Close()
 	}
